@@ -153,32 +153,53 @@ signature comes back as nil = empty). -/
 theorem multisignature_roundtrip (sigs : List Bytes) :
     decodeMultiSig (encodeMultiSig sigs) = some sigs := decodeMultiSig_encode sigs
 
-/-- `AddSignatureByIndex` places the signature at the requested index when signatures are added
-in index order (or an existing one is replaced). -/
-theorem add_signature_in_order_ok (sigs : List Bytes) (sig : Bytes) (i : Nat)
-    (h : i ≤ sigs.length) : (addSignatureByIndex sigs sig i)[i]? = some sig :=
-  addSignatureByIndex_in_order sigs sig i h
+/-- `AddSignatureByIndex(sig, i)` puts the signature at index `i`, whatever the current length,
+and leaves every other existing entry alone. -/
+theorem add_signature_spec (sigs : List Bytes) (sig : Bytes) (i : Nat) :
+    (addSignatureByIndex sigs sig i)[i]? = some sig ∧
+      ∀ j, j < sigs.length → j ≠ i → (addSignatureByIndex sigs sig i)[j]? = sigs[j]? :=
+  ⟨addSignatureByIndex_self sigs sig i, fun j hj hne => addSignatureByIndex_other sigs sig i j hj hne⟩
 
-/-- Out of order it does not: for every index beyond the current length the signature lands one
-position too early and the requested index stays empty. -/
-theorem add_signature_out_of_order_misplaced (sigs : List Bytes) (sig : Bytes) (i : Nat)
-    (h : sigs.length < i) :
-    (addSignatureByIndex sigs sig i)[i]? = none ∧ (addSignatureByIndex sigs sig i)[i - 1]? = some sig :=
-  addSignatureByIndex_misplaced sigs sig i h
+example : addSignatureByIndex [] [9] 2 = [[0], [0], [9]] := by decide
 
-/-- The full specification "the signature is found at the index it was added at" is false of the
-code as it is. -/
-theorem add_signature_fails :
-    ¬ ∀ (sigs : List Bytes) (sig : Bytes) (i : Nat), (addSignatureByIndex sigs sig i)[i]? = some sig := by
-  intro h
-  have := h [] [1] 1
-  simp [addSignatureByIndex] at this
+/-- A signing session in **any order**: when each of the `n` members adds its signature at its own
+index (every member at least once, in whatever order), the assembled multi-signature has `n`
+entries and entry `j` is member `j`'s. -/
+theorem assemble_any_order (sigOf : Nat → Bytes) (order : List Nat) (n : Nat)
+    (hall : ∀ j, j < n → j ∈ order) (hrange : ∀ o ∈ order, o < n) :
+    (assemble sigOf order).length = n ∧ ∀ j, j < n → (assemble sigOf order)[j]? = some (sigOf j) :=
+  assemble_spec sigOf order n hall hrange
 
-/-- With the padding loop running to `index` (instead of `index-1`) it holds for all inputs. -/
-theorem add_signature_fixed_spec (sigs : List Bytes) (sig : Bytes) (i : Nat) :
-    (addSignatureByIndexFixed sigs sig i)[i]? = some sig ∧
-      ∀ j, j < sigs.length → j ≠ i → (addSignatureByIndexFixed sigs sig i)[j]? = sigs[j]? :=
-  addSignatureByIndexFixed_spec sigs sig i
+/-- …hence a multisig assembled through `AddSignatureByIndex` in any signing order verifies **iff**
+every member's signature is non-empty and verifies under that member's key. -/
+theorem assembled_multisig_verifies_iff {κ : Type} (vm : κ → Bytes → Bytes → Bool) (ks : List κ)
+    (m : Bytes) (sigOf : Nat → Bytes) (order : List Nat)
+    (hall : ∀ j, j < ks.length → j ∈ order) (hrange : ∀ o ∈ order, o < ks.length) :
+    multisigVerify vm ks m (assemble sigOf order) = true ↔
+      ∀ j (h : j < ks.length), sigOf j ≠ [] ∧ vm ks[j] m (sigOf j) = true := by
+  obtain ⟨hlen, hget⟩ := assemble_any_order sigOf order ks.length hall hrange
+  rw [multisig_verify_iff]
+  constructor
+  · rintro ⟨_, h⟩ j hj
+    have h1 : j < (assemble sigOf order).length := by omega
+    have := h j h1 hj
+    have e : (assemble sigOf order)[j] = sigOf j := by
+      have := hget j hj
+      rw [List.getElem?_eq_getElem h1] at this
+      exact Option.some.inj this
+    rw [e] at this
+    exact this
+  · intro h
+    refine ⟨hlen, fun j h1 h2 => ?_⟩
+    have e : (assemble sigOf order)[j] = sigOf j := by
+      have := hget j h2
+      rw [List.getElem?_eq_getElem h1] at this
+      exact Option.some.inj this
+    rw [e]
+    exact h j h2
+
+example : multisigVerify toyVerify [1, 2, 3] [9] (assemble (fun j => toySign (UInt8.ofNat (j + 1)) [9]) [2, 0, 1]) = true := by
+  decide
 
 /-- `Equals` of a simple key with a key of another kind panics (unchecked type assertion). -/
 theorem equals_panics_across_kinds (a b : Bytes) (ks : List Key) :
